@@ -1,3 +1,32 @@
+use swimos_model::{Attr, Item, Value};
+use swimos_recon::parser::parse_recognize;
+use swimos_recon::*;
+use std::hash::Hasher;
+fn h(s: &str) -> u64 { let mut x = std::collections::hash_map::DefaultHasher::new(); recon_hash(s, &mut x); x.finish() }
 fn main() {
-    vcommon::machinery_failure("C15: engine not built yet");
+    let vals = vec![
+        Value::Float64Value(f64::NAN), Value::Float64Value(f64::INFINITY), Value::Float64Value(-0.0), Value::Float64Value(1e300), Value::Float64Value(1.0),
+        Value::text("a b"), Value::text("a,b"), Value::text(""), Value::text("true"), Value::text("é"), Value::text("\u{1}\n\"\\"),
+        Value::Record(vec![Attr::of(("a", Value::Record(vec![], vec![Item::ValueItem(Value::Int32Value(1))])))], vec![]),
+        Value::Record(vec![Attr::of(("a", Value::Record(vec![], vec![Item::ValueItem(Value::Int32Value(1)), Item::ValueItem(Value::Int32Value(2))])))], vec![]),
+        Value::Record(vec![Attr::of(("a", Value::Record(vec![Attr::of("b")], vec![])))], vec![Item::ValueItem(Value::Int32Value(2))]),
+        Value::Record(vec![Attr::of(("a b", Value::Extant))], vec![Item::Slot(Value::Extant, Value::Extant), Item::ValueItem(Value::Extant)]),
+        Value::Record(vec![], vec![Item::ValueItem(Value::Record(vec![], vec![]))]),
+        Value::Data(swimos_model::Blob::from_vec(vec![1,2,3,4])),
+        Value::Data(swimos_model::Blob::from_vec(vec![])),
+    ];
+    for v in &vals {
+        let a = format!("{}", print_recon(v)); let b = format!("{}", print_recon_compact(v)); let c = format!("{}", print_recon_pretty(v));
+        println!("{:?}\n  std={:?} compact={:?} pretty={:?}", v, a, b, c);
+        println!("  parse std: {:?}", parse_recognize::<Value>(a.as_str(), false));
+    }
+    let pairs = [("0.0","-0.0"),("@a(\"x,y\")","@a(\"x\\u002cy\")"),("1 garbage","1"),("@a(1)","@a({1})"),("@a(1,2)","@a({1,2})"),("@a({1},{2})","@a(1,2)"),
+      ("{1,}","{1}"),("@a()","@a"),("@a{}","@a"),("@a()","@a{}"), ("","{}"), ("NaN","nan"), ("1","01"),("1","0x1"),("-0","0"),("1.","1.0"),("{","{"),("{","("),("\"\\q\"","\"\\q\""),
+      ("@a(@b)","@a({@b})"),("@a(@b,1)","@a(@b{1})"),("@a(@b 1)","@a(@b{1})"), ("{a:1}","{a:{1}}"), ("{{1}:2}","{1:2}"), ("@a({})","@a()"), ("@a({})","@a"),("{{}}","{}"),("{,}","{}"),("{:}","{}")];
+    for (a,b) in pairs {
+        let pa = parse_recognize::<Value>(a, false); let pb = parse_recognize::<Value>(b, false);
+        let exp = match (&pa,&pb) { (Ok(x),Ok(y)) => x==y, _ => a==b };
+        let c = compare_recon_values(a,b);
+        println!("{:?} vs {:?}: cmp={} expect={} hash_eq={} {}  pa={:?} pb={:?}", a, b, c, exp, h(a)==h(b), if c!=exp {"MISMATCH"} else if exp && h(a)!=h(b) {"HASHDIFF"} else {""}, pa.ok(), pb.ok());
+    }
 }
